@@ -26,6 +26,7 @@ func init() {
 			NotCovered: "behaviour of the HTTP client under each fault kind; atomicity of renameio itself (trusted); disk-full and fsync semantics.",
 			Rules: map[string]string{"C13-R1": "download / replace protocol tables", "C13-R2": "who may mutate files",
 				"C13-R3": "commit only after success", "C13-R4": "invalid index entries skipped, not aborting",
+				"C13-R6": "blocked-service index: any invalid entry rejects the whole update",
 				"C13-R5": "configuration wiring: each kind of list (rule lists, their index, blocked-service index, safe search) gets its own size limit, staleness, timeout and URL"},
 		}})
 }
@@ -90,6 +91,52 @@ func reachesAvoidingEdges(from, to ssa.Instruction, avoid []an.CondEdge) bool {
 			}
 		}
 		push(b)
+	}
+	return false
+}
+
+// exitAvoiding reports whether some path from just after `from` reaches a
+// return of the function without traversing any of the given conditional edges
+// and without executing an instruction for which barrier is true.
+func exitAvoiding(from ssa.Instruction, avoid []an.CondEdge, barrier func(ssa.Instruction) bool) bool {
+	blocked := func(b, succ *ssa.BasicBlock) bool {
+		for _, e := range avoid {
+			if e.If.Block() == b && e.To() == succ && b.Succs[0] != b.Succs[1] {
+				return true
+			}
+		}
+		return false
+	}
+	type st struct {
+		b *ssa.BasicBlock
+		i int
+	}
+	blk, i := an.After(from)
+	seen := map[*ssa.BasicBlock]bool{}
+	work := []st{{blk, i}}
+	for len(work) > 0 {
+		s := work[len(work)-1]
+		work = work[:len(work)-1]
+		stopped := false
+		for j := s.i; j < len(s.b.Instrs); j++ {
+			in := s.b.Instrs[j]
+			if barrier(in) {
+				stopped = true
+				break
+			}
+			if _, isRet := in.(*ssa.Return); isRet {
+				return true
+			}
+		}
+		if stopped {
+			continue
+		}
+		for _, succ := range s.b.Succs {
+			if !blocked(s.b, succ) && !seen[succ] {
+				seen[succ] = true
+				work = append(work, st{succ, 0})
+			}
+		}
 	}
 	return false
 }
@@ -177,6 +224,78 @@ func c13Commit(c *an.Ctx, rule string, fn *ssa.Function, what string, commit ssa
 }
 
 func runC13(c *an.Ctx) {
+	// ---- R6: an invalid entry of the blocked-service index rejects the whole update (the previous service map stays)
+	c.Floor("C13-R6", 1)
+	decide(c, "C13-R6", "filter/internal/serviceblock.(*indexResp).toInternal", an.DecideCfg{
+		Dom: an.Domain{"len(p0.BlockedServices)": an.Ints(0, 1, 2), "e0": an.Bools, "e1": an.Bools},
+		OnCall: func(it *an.Interp, name string, args []an.AV) (an.AV, bool) {
+			switch {
+			case strings.HasSuffix(name, "indexRespService).toInternal"):
+				i := "0"
+				if strings.Contains(args[0].String(), "[1]") {
+					i = "1"
+				}
+				if it.Feature("e" + i).IsTrue() {
+					return an.AV{Kind: an.KTuple, Tup: []an.AV{an.Sym("id" + i), an.Nil(), an.NonNil("entryErr" + i)}}, true
+				}
+				return an.AV{Kind: an.KTuple, Tup: []an.AV{an.Sym("id" + i), an.NonNil("list" + i), an.Nil()}}, true
+			case name == "fmt.Errorf":
+				return an.NonNil("wrapped"), true
+			case strings.HasSuffix(name, "errors.Join"):
+				// non-nil iff some element of the joined slice was set to a non-nil error
+				for _, a := range args {
+					if a.Kind == an.KNonNil && strings.HasPrefix(a.Key, "make#") {
+						for _, pre := range []string{a.Key + "[", a.String() + "["} {
+							for _, v := range it.MemWithPrefix(pre) {
+								if v.Kind == an.KNonNil {
+									return an.NonNil("joined"), true
+								}
+							}
+						}
+					}
+					if a.Kind == an.KSlice {
+						for _, v := range a.Tup {
+							if v.Kind == an.KNonNil {
+								return an.NonNil("joined"), true
+							}
+						}
+					}
+				}
+				return an.Nil(), true
+			case strings.HasSuffix(name, "errcoll.Collect"):
+				return an.Nil(), true
+			}
+			return an.AV{}, false
+		},
+		Expect: func(f an.Features, o an.AOutcome) string {
+			n := int(f.I("len(p0.BlockedServices)"))
+			if n == 0 {
+				if o.RetString() == "nil, nil" {
+					return ""
+				}
+				return "nothing for an empty index; got " + o.RetString()
+			}
+			bad := false
+			for i := 0; i < n; i++ {
+				if f.B(fmt.Sprintf("e%d", i)) {
+					bad = true
+				}
+			}
+			if len(o.Ret) != 2 {
+				return "a (services, err) result"
+			}
+			if bad {
+				if o.Ret[0].Kind == an.KNil && o.Ret[1].Kind != an.KNil {
+					return ""
+				}
+				return "an error and no service map when any entry (first, middle or last) is invalid: a partial map would silently stop blocking the other services; got " + o.RetString()
+			}
+			if o.Ret[1].Kind != an.KNil || o.Ret[0].Kind == an.KNil {
+				return "the service map for a valid index; got " + o.RetString()
+			}
+			return ""
+		},
+	})
 	// ---- R5: the size limit, staleness and timeout of each kind of list reach the downloader built for that kind
 	c.Floor("C13-R5", 12)
 	const fs = "filter/filterstorage."
@@ -641,7 +760,8 @@ func runC13(c *an.Ctx) {
 				continue
 			}
 			key := "addRuleList keeps previous on failure of " + name
-			ok2 := false
+			// the success edges of the call's error check
+			var succ []an.CondEdge
 			for _, b := range fn.Blocks {
 				ifi, isIf := b.Instrs[len(b.Instrs)-1].(*ssa.If)
 				if !isIf {
@@ -649,17 +769,19 @@ func runC13(c *an.Ctx) {
 				}
 				for _, br := range []bool{true, false} {
 					e := an.CondEdge{If: ifi, Branch: br}
-					if !an.ErrNonNilEdgeOf(e, call) {
-						continue
+					if an.ErrNonNilEdgeOf(e, call) {
+						succ = append(succ, an.CondEdge{If: ifi, Branch: !br})
 					}
-					// every path from the failure edge to the exit passes setPrevRuleList
-					_, reaches := an.ReachesExitAvoiding(e.To(), 0, func(in ssa.Instruction) bool {
-						cc, isCall := in.(ssa.CallInstruction)
-						return isCall && an.IsCall(cc, "(*filter/filterstorage.Default).setPrevRuleList")
-					}, true)
-					ok2 = !reaches
 				}
 			}
+			// every path from the call to the function's exit either takes the
+			// success edge or re-installs the previous version: no exit is
+			// reachable while avoiding both (this also covers failure branches
+			// that test the error in another way, e.g. errors.Is)
+			ok2 := len(succ) > 0 && !exitAvoiding(call, succ, func(in ssa.Instruction) bool {
+				cc, isCall := in.(ssa.CallInstruction)
+				return isCall && an.IsCall(cc, "(*filter/filterstorage.Default).setPrevRuleList")
+			})
 			c.Check(ok2, "C13-R3", key, call.Pos(), "every failure path re-installs the previous version of the list",
 				"a failure path leaves the round's map without the previous version of this list: after a failed download the list stops filtering")
 		}
